@@ -450,10 +450,11 @@ def evaluate__sum(self: XPathFunction, context: ta.ContextType = None) -> ta.One
         raise self.error('FORG0006', 'invalid sum of duration values')
     elif any(isinstance(x, (StringProxy, AnyURI)) for x in values):
         raise self.error('FORG0006', 'cannot apply fn:sum() to string-based types')
+    elif all(isinstance(x, (Float, int, decimal.Decimal)) for x in values):
+        # xs:integer and xs:decimal values are promoted to xs:float
+        result = sum((Float(x) for x in values[1:]), start=Float(values[0]))
     elif any(isinstance(x, float) and math.isnan(x) for x in values):
         return math.nan
-    elif all(isinstance(x, Float) for x in values):
-        result = sum(values)
     else:
         try:
             result = sum(self.number_value(x) for x in values)
